@@ -8,3 +8,48 @@ package types
 //@   returns err
 //@   ensures valid: err == nil ==> paramsOK(p)
 //@ end
+
+// ---------------------------------------------------------------------------------------------
+// Reward arithmetic (C06)
+
+// reward denominations of a pool's rules are pairwise distinct (established by createPool from a valid Coins value)
+//@ define distinctRewards(s) = forall a:Int :: forall b:Int :: 0 <= a && a < b && b < len(s) ==> s[a].Reward != s[b].Reward
+//@ define rpsOK(s) = forall j:Int :: 0 <= j && j < len(s) ==> !isnil(s[j].RewardPerShare) && raw(s[j].RewardPerShare) >= 0
+// floor(rps * x) for a non-negative accumulator and amount
+//@ define share(r, x) = (raw(r.RewardPerShare) * x) div DEC_ONE
+
+// Pending reward and new debt of one farmer (C06): per rule, pending = floor(rps*locked) - debt (nothing while
+// nothing is locked) and the new debt is floor(rps*(locked+delta)); denominations not among the rules get nothing.
+//@ func FarmPool.CaclRewards
+//@   property C06
+//@   returns rewards, rewardDebt
+//@   requires distinctRewards(pool.Rules) && rpsOK(pool.Rules)
+//@   requires farmInfo.Locked >= 0 && farmInfo.Locked + deltaAmt >= 0
+//@   requires forall j:Int :: 0 <= j && j < len(pool.Rules) ==> ufb("denom_valid", pool.Rules[j].Reward)
+//@                             && share(pool.Rules[j], farmInfo.Locked) >= amt(farmInfo.RewardDebt, pool.Rules[j].Reward)
+//@   invariant #1 idx: rangeindex >= 0 - 1 && rangeindex < len(pool.Rules)
+//@   invariant #1 seen: forall j:Int :: 0 <= j && j <= rangeindex ==>
+//@                amt(rewards, pool.Rules[j].Reward) == ite(farmInfo.Locked > 0, share(pool.Rules[j], farmInfo.Locked) - amt(farmInfo.RewardDebt, pool.Rules[j].Reward), 0)
+//@                && amt(rewardDebt, pool.Rules[j].Reward) == share(pool.Rules[j], farmInfo.Locked + deltaAmt)
+//@   invariant #1 rest: forall d:Str :: (forall j:Int :: 0 <= j && j <= rangeindex ==> pool.Rules[j].Reward != d) ==> amt(rewards, d) == 0 && amt(rewardDebt, d) == 0
+//@   ensures pending: forall j:Int :: 0 <= j && j < len(pool.Rules) ==>
+//@                amt(rewards, pool.Rules[j].Reward) == ite(farmInfo.Locked > 0, share(pool.Rules[j], farmInfo.Locked) - amt(farmInfo.RewardDebt, pool.Rules[j].Reward), 0)
+//@   ensures debt:    forall j:Int :: 0 <= j && j < len(pool.Rules) ==> amt(rewardDebt, pool.Rules[j].Reward) == share(pool.Rules[j], farmInfo.Locked + deltaAmt)
+//@   ensures nothing_else: forall d:Str :: (forall j:Int :: 0 <= j && j < len(pool.Rules) ==> pool.Rules[j].Reward != d) ==> amt(rewards, d) == 0 && amt(rewardDebt, d) == 0
+//@   nopanic
+//@ end
+
+// End height of a fresh pool: start + min over rules of floor(total / per-block) (C06).
+//@ func FarmPool.ExpiredHeight
+//@   property C06
+//@   returns end, err
+//@   requires pool.StartHeight >= 0
+//@   requires forall j:Int :: 0 <= j && j < len(pool.Rules) ==> pool.Rules[j].RewardPerBlock > 0 && pool.Rules[j].TotalReward >= 0
+//@                             && pool.Rules[j].TotalReward div pool.Rules[j].RewardPerBlock <= 9223372036854775807
+//@   invariant #1 idx: rangeindex >= 0 - 1 && rangeindex < len(pool.Rules)
+//@   invariant #1 min: targetInteval <= 9223372036854775807 && targetInteval >= 0
+//@                && (forall j:Int :: 0 <= j && j <= rangeindex ==> targetInteval <= pool.Rules[j].TotalReward div pool.Rules[j].RewardPerBlock)
+//@   ensures covers: err == nil ==> end >= pool.StartHeight
+//@                && (forall j:Int :: 0 <= j && j < len(pool.Rules) ==> pool.Rules[j].RewardPerBlock * (end - pool.StartHeight) <= pool.Rules[j].TotalReward)
+//@   nopanic
+//@ end
